@@ -13,7 +13,7 @@ def native(name="main", **kw):
 
 def both(name="main", **kw):
     """The same workload in both build profiles (debug_assert!/overflow behaviour differs)."""
-    return [native(name, **kw), native(name + "-dev", engine="dev", **kw)]
+    return [native(name, **kw), native(name + "-dev", engine="dev", rv_stage=kw.pop("rv_stage", name), **kw)]
 
 
 def miri(name="miri", scale=0.01, shards=4, shards_thorough=16, **kw):
@@ -26,11 +26,15 @@ def miri(name="miri", scale=0.01, shards=4, shards_thorough=16, **kw):
 PROPS = {
     "C01": {
         "level": "exploration",
-        "stages": both("inproc") + [miri("miri-inproc", scale=0.004)],
+        "stages": both("inproc") + [miri("miri-inproc", scale=0.004), native("c01net", sub="c03")],
     },
     "C02": {
         "level": "exploration",
         "stages": both("inproc") + [native("child")] + [miri("miri-inproc", scale=0.001)],
+    },
+    "C03": {
+        "level": "exploration",
+        "stages": [native("main", timeout=300, timeout_thorough=1500)],
     },
     "C04": {
         "level": "exploration",
@@ -43,9 +47,26 @@ PROPS = {
     "C08": {
         "level": "exploration",
         "stages": both("inproc") + [miri("miri-inproc", scale=0.01), native("net"),
-                   {"name": "net-memcheck", "engine": "valgrind", "tiers": ["thorough"], "scale": 0.02, "timeout_thorough": 1800}],
+                   {"name": "net-memcheck", "rv_stage": "net", "engine": "valgrind", "tiers": ["thorough"], "scale": 0.02, "timeout_thorough": 1800}],
+    },
+    "C09": {
+        "level": "exploration",
+        "stages": [native("raw"), native("pullers", timeout=300, timeout_thorough=1500),
+                   {"name": "raw-memcheck", "rv_stage": "raw", "engine": "valgrind", "tiers": ["thorough"], "scale": 0.02, "timeout_thorough": 1800}],
+    },
+    "C10": {
+        "level": "fault_enumeration",
+        "stages": [native("faults"), native("crash"), native("strace"), native("inject")],
     },
     "C11": {
+        "level": "exploration",
+        "stages": both("model") + [miri("miri-model", scale=0.004)],
+    },
+    "C12": {
+        "level": "exploration",
+        "stages": [native("threads"), miri("miri-virtual-clock", scale=0.008, miriflags="-Zmiri-preemption-rate=0.05")],
+    },
+    "C13": {
         "level": "exploration",
         "stages": both("model") + [miri("miri-model", scale=0.004)],
     },
@@ -57,12 +78,9 @@ PROPS = {
         "level": "exploration",
         "stages": both("model") + [miri("miri-model", scale=0.004)],
     },
-    "C12": {
-        "level": "exploration",
-        "stages": [native("threads"), miri("miri-virtual-clock", scale=0.008, miriflags="-Zmiri-preemption-rate=0.05")],
-    },
-    "C13": {
-        "level": "exploration",
-        "stages": both("model") + [miri("miri-model", scale=0.004)],
+    "C19": {
+        "level": "fault_enumeration",
+        "stages": [native("retry", timeout=300, timeout_thorough=1500),
+                   native("retry-dev", engine="dev", rv_stage="retry", tiers=["thorough"], timeout_thorough=1500), native("tags")],
     },
 }
